@@ -21,8 +21,8 @@ func TestMain(m *testing.M) { evid.Main(m, "C16") }
 // ---------------------------------------------------------------------------------------------------------------------
 // Generators
 
-var cmdKinds = []string{"set", "set", "set", "set", "set", "del", "del", "del", "get", "has", "ev", "ev", "uev", "uev", "snap", "snap", "rest", "rest", "sbr"}
-var hookKinds = []string{"set", "set", "set", "del", "get", "ev", "uev"}
+var cmdKinds = []string{"set", "set", "set", "set", "set", "del", "del", "del", "get", "has", "ev", "ev", "uev", "uev", "snap", "snap", "rest", "rest", "sbr", "iter", "iter", "range"}
+var hookKinds = []string{"set", "set", "set", "del", "get", "ev", "uev", "iter", "range"}
 
 func genDataOp(t *rapid.T, kind string, store int) Op {
 	op := Op{K: kind}
@@ -61,6 +61,8 @@ func genOps(t *rapid.T, maxN int, snaps bool) []Op {
 		switch kind {
 		case "set", "del", "get", "has":
 			ops = append(ops, genDataOp(t, kind, -1))
+		case "iter", "range":
+			ops = append(ops, genScanOp(t, kind, -1)) // scan_test.go
 		case "ev", "uev":
 			ops = append(ops, genEvent(t, kind))
 		case "snap":
@@ -110,7 +112,7 @@ func sanitize(ops []Op) ([]Op, int) {
 			for s := range seen {
 				stale[s] = true
 			}
-		case "set", "del", "get", "has":
+		case "set", "del", "get", "has", "iter", "range":
 			if op.H == 1 {
 				if stale[op.S] {
 					op.H = 0
@@ -175,7 +177,7 @@ func genHistory(t *rapid.T) *History {
 	}
 	n := rapid.IntRange(1, 7).Draw(t, "steps")
 	for i := 0; i < n; i++ {
-		kind := rapid.SampledFrom([]string{"block", "block", "block", "block", "block", "block", "revert", "revert", "restart", "restart"}).Draw(t, "step")
+		kind := rapid.SampledFrom([]string{"block", "block", "block", "block", "block", "block", "revert", "revert", "restart", "restart", "finalize"}).Draw(t, "step")
 		st := Step{Kind: kind}
 		switch kind {
 		case "block":
@@ -184,6 +186,8 @@ func genHistory(t *rapid.T) *History {
 			st.Expected = rapid.Bool().Draw(t, "expected")
 		case "restart":
 			st.D = rapid.SampledFrom([]int{0, 1, 1, 2, 2}).Draw(t, "d")
+		case "finalize":
+			st.Back = rapid.SampledFrom([]int{0, 1, 1, 2, 3}).Draw(t, "back") // finalize_test.go
 		}
 		h.Steps = append(h.Steps, st)
 	}
@@ -263,6 +267,7 @@ func TestC16Histories(t *testing.T) {
 		evid.R.Label("blocks", int64(st.blocks))
 		evid.R.Label("transactions", int64(st.txs))
 		evid.R.Label("failing-transactions", int64(st.failTxs))
+		countScanLabels(&st)
 	})
 }
 
@@ -305,6 +310,8 @@ func historyLabels(kind string, st *simStats) []string {
 	add(st.removedAtMulti3 > 0, "removal-at-height-that-saw-3+-blocks")
 	add(st.descents > 0, "descent-through-2+-heights-that-saw-2+-blocks")
 	add(st.recoveryDepthMax >= 3, "recovery-app-3+-blocks-ahead")
+	scanLabels(st, add)
+	finLabels(st, add)
 	return labels
 }
 
